@@ -18,7 +18,18 @@ expanded row / which bin).  The harness compares
     fields of every call against collapser_names (theorem collapse_call_independent: mean, std, number plus the
     call's own custom names), a custom `std` replacing only std (collapse_custom_keeps_defaults), and the statistics
     of the same dataset with its pair list rearranged (collapse_pair_order_invariant: number and NaN-ness exactly,
-    mean/std within the tolerance).
+    mean/std within the tolerance),
+  * exactly: custom collapser functions that return a VIEW of the matrix they are handed (m[0] = first partner in pair
+    order, m[-1], m[height // 2]) for five variables per group, among them two scalar ones and two of one and the same
+    extra-dimension shape, in the first call and again later in the call history: every <var>_<function> holds the
+    values of its OWN variable at the partner that theorem collapse_slot_function / collapse_last_slot_function names
+    (collapse_custom_function: the value depends on the variable's own column only),
+  * results of Collocator.collocate that are SPARSE and UNORDERED (a long track of 300-3000 points, flat or gridded,
+    primary or secondary, of which a handful of points collocate with stations met in non-ascending order along the
+    track): directed cases that do not depend on the seed and random ones; the certified tests of check_compaction
+    (theorems compaction_check_sound, compact_is_consistent: valid indices, every stored point in a pair, every pair
+    still names its original point, every collocated point stored once) and expand = the pairs of a brute-force
+    search carrying the original data.
 Only what the property fixes is compared: rows are matched through the per-pair tag and the id variables,
 not by position, and the stored order of the compaction is not compared (only the certified invariant).
 Because the model provably equals the specification whenever the pair rows satisfy the invariant
@@ -41,7 +52,11 @@ TRUSTED = [
     "values are compared numerically with long-double statistics over the partner values named by Coq, the counts and the "
     "NaN-ness exactly with what Coq computes from the validity flags of the data",
     "row assignment: numba is not installed here, so both size classes (< 1000 and >= 1000 pairs) run the pure-Python _rows_for_secondaries; the numba variant is numba.jit of the same function and is not exercised",
-    "Collocator.collocate: the pair search itself is C04's business; here only the compaction of the raw pairs it found (read by wrapping _create_return from outside) is tied",
+    "Collocator.collocate: the pair search itself is C04's business; here only the compaction of the raw pairs it found (read by wrapping _create_return from outside) is tied; "
+    "for the sparse track / station cases the expected pairs are additionally found by brute force in the harness (haversine distance < 30 km, |dt| < 2 h; the geometry "
+    "keeps every decision at least 5 km / 8 min away from the thresholds)",
+    "numpy views: that `m[k]` aliases the matrix handed to a custom collapser is a fact about numpy the model does not contain (Gallina values cannot alias); "
+    "the theorem collapse_custom_function states the result per variable, the harness observes all variables after all calls",
 ]
 UBASE = 10 ** 6
 TOL = 1e-9
@@ -169,6 +184,62 @@ def gen_collocate_case(rng, k):
             "late": rng.choice([0.0, 0.0, 0.2, 0.4]), "layout": gen_layout(rng)}
 
 
+def track_position(k, n):
+    """point k of a long track of n points: every two points of a track are more than 100 km apart"""
+    return -75.0 + 150.0 * k / max(1, n - 1), (k * 11.7) % 360.0 - 180.0
+
+
+def gen_sparse_case(rng, k, directed=None):
+    """SPARSE and UNORDERED results of Collocator.collocate: a long track (300-3000 points) of which a handful of points
+    collocate with stations; the stations are met in an order that is not the order along the track (the short side is the
+    query side of the search, the pairs come in its order).  role: the long track is the primary or the secondary; grid:
+    the track is a gridded swath (scnline x scnpos, `grid` positions per line) or flat; `at` = the track point next to
+    station j (None: a station far from the track), in station order; late = stations that fail the temporal condition."""
+    if directed is not None:
+        n_track, at, role, grid, mode = directed
+        late = []
+        rng = __import__("random").Random(f"C13 sparse {k}")          # the layout of a directed case is fixed as well
+    else:
+        grid = rng.choice([0, 0, 0, 2, 3, 5])
+        n_track = rng.randint(300, 3000)
+        if grid:
+            n_track -= n_track % grid
+        m = rng.randint(3, 12)
+        lo = rng.choice([0, n_track // 2, (3 * n_track) // 4, (9 * n_track) // 10, n_track - 40])   # where the stations sit
+        at = rng.sample(range(lo, n_track), m)
+        order = rng.random()
+        if order < 0.35:
+            at.sort(reverse=True)                 # stations near the end of the track first
+        elif order < 0.45:
+            at.sort()                             # (ascending: the pattern for which a sorted search is right by accident)
+        if rng.random() < 0.3:
+            at[rng.randrange(1, m)] = at[0]       # two stations at the same track point
+        if rng.random() < 0.3:
+            at.insert(rng.randrange(len(at) + 1), None)     # a station that is nowhere near the track
+        role = rng.choice(["long_primary", "long_secondary"])
+        mode = rng.choice(["both", "space"])
+        late = [j for j in range(len(at)) if mode == "both" and rng.random() < 0.1]
+    n_st = len(at)
+    return {"id": k, "kind": "col", "cseed": rng.randrange(1 << 30), "mode": mode, "late": 0.0, "clusters": 0,
+            "n_p": n_track if role == "long_primary" else n_st, "n_s": n_st if role == "long_primary" else n_track,
+            "sparse": {"n_track": n_track, "at": at, "role": role, "grid": grid, "late": late,
+                       "time_reversed": directed is None and rng.random() < 0.2},
+            "layout": gen_layout(rng)}
+
+
+# directed (seed-independent) sparse cases: (track length, track point of station j in station order, role, grid, mode)
+SPARSE_DIRECTED = [
+    (500, [480, 450, 470, 300, 490, 460], "long_primary", 0, "both"),
+    (500, [480, 450, 470, 300, 490, 460], "long_secondary", 0, "both"),
+    (1200, [1190, 1100, 1150], "long_primary", 0, "space"),
+    (1200, [1190, 1100, 1150], "long_secondary", 3, "space"),
+    (3000, [2990, 2900, 2950, 2400, 2999, 2970, 2800, 2600, 2995, 2700, 2850, 2500], "long_primary", 5, "both"),
+    (300, [299, 290, 295, 280], "long_secondary", 2, "both"),
+    (900, [880, 700, 880, 850, 600], "long_primary", 0, "space"),          # two stations at one track point
+    (2000, [1999, 1000, 1500, 1001], "long_secondary", 0, "both"),
+]
+
+
 # ----------------------------------------------------------------------------- building datasets
 
 def group_vars(n, g, lay, idbase, nrng):
@@ -197,6 +268,9 @@ def group_vars(n, g, lay, idbase, nrng):
         "u": (udims, u),
         "w": (wdims, w),
         "k": (["P"], kk),
+        # a second variable with exactly the extra dimensions of u (two collapsed variables of one shape; id and k are two
+        # scalar ones); no random numbers are drawn for it
+        "u2": (udims, -u - 0.25),
     }
     if lay["static"]:
         out["freq"] = (["x0"] if ue else ["z"], np.arange(ue[0] if ue else 2, dtype=float))
@@ -307,6 +381,17 @@ def reorder_pairs(ds):
     return ds2
 
 
+# custom collapser functions that return a VIEW of the matrix they are handed (axis 0 = partner slot: row k of column c is
+# the (k+1)-th partner of reference point c in the order of the pair list, NaN padding below the last partner):
+#   first = slot 0 (the partner of the pair with the lowest position in the pair list; every reference point has one),
+#   last  = the last slot (a value only for the reference points with the largest number of partners, NaN padding else),
+#   mid   = slot  height // 2.
+VIEWS = {"first": lambda m, a: m[0], "last": lambda m, a: m[-1], "mid": lambda m, a: m[m.shape[0] // 2]}
+VIEW_SLOT = {"first": lambda h: 0, "last": lambda h: h - 1, "mid": lambda h: h // 2}
+VIEW_VARS = ("id", "u", "w", "k", "u2")
+NAMES_REC, NAMES_STD = ["rec", "first", "last", "mid"], ["std", "first"]
+
+
 def observe_collapse(ds, names, ref):
     """collapse with a recording custom collapser; returns the arrays needed by the judge."""
     from typhon.collocations import collapse
@@ -320,16 +405,17 @@ def observe_collapse(ds, names, ref):
     try:
         with warnings.catch_warnings():
             warnings.simplefilter("ignore")
-            out = collapse(ds.copy(deep=True), reference=None if ref is None else names[ref], collapser={"rec": rec})
+            out = collapse(ds.copy(deep=True), reference=None if ref is None else names[ref],
+                           collapser={"rec": rec, **VIEWS})
         o = {"ref": refname, "other": other, "nrows": int(out.sizes.get("collocation", -1)),
              "ref_ids": [int(i) for i in out[f"{refname}/id"].values], "stats": {}, "root": None,
              "names_rec": field_names(out, other)}
         for v in ("time", "lat", "lon"):
             if v not in out or not same(out[v].values, ds[f"{refname}/{v}"].values):
                 o["root"] = f"root variable {v} is not the reference's {v}"
-        for v in ("u", "w", "k"):
+        for v in VIEW_VARS:
             st = {}
-            for f in ("mean", "std", "number", "rec"):
+            for f in ("mean", "std", "number", "rec") + tuple(VIEWS):
                 name = f"{other}/{v}_{f}"
                 if name not in out:
                     st[f] = None
@@ -349,7 +435,8 @@ def observe_collapse(ds, names, ref):
             o["history"] = None
             with warnings.catch_warnings():
                 warnings.simplefilter("ignore")
-                over = collapse(ds.copy(deep=True), collapser={"std": lambda m, a: np.nanmax(m, axis=a)})
+                over = collapse(ds.copy(deep=True), collapser={"std": lambda m, a: np.nanmax(m, axis=a),
+                                                               "first": VIEWS["first"]})
                 plain = collapse(ds.copy(deep=True))
                 moved = collapse(reorder_pairs(ds))
             o["names_std"], o["names_plain"] = field_names(over, other), field_names(plain, other)
@@ -364,6 +451,11 @@ def observe_collapse(ds, names, ref):
                             o["override"] = (f"collapse(collapser={{'std': nanmax}}): {a} is {x.ravel()[:3].tolist()}, expected "
                                              f"{'the custom function (nanmax)' if f == 'std' else 'the default ' + f} "
                                              f"{y.ravel()[:3].tolist()}")
+            o["first_again"] = {}
+            for v in VIEW_VARS:
+                name = f"{other}/{v}_first"
+                if name in over and "collocation" in over[name].dims:
+                    o["first_again"][v] = np.moveaxis(np.asarray(over[name].values), over[name].dims.index("collocation"), 0)
             extra = sorted(str(n) for n in plain.variables if str(n).endswith("_rec"))
             if extra:
                 o["history"] = f"a plain collapse() after a call with a custom collapser `rec` still produces {extra[:3]}"
@@ -423,13 +515,17 @@ def masks_lit(m):
     return coq_list([coq_list([coq_bool(b) for b in row]) for row in m])
 
 
+def strs_lit(names):
+    return coq_list([f'"{n}"%string' for n in names])
+
+
 def ds_expr(n_p, n_s, pr, sr, masks):
     """run_dataset_m: the verdicts of run_dataset + the exact counts of valid values of w per reference point and lane
     (reference primary: flags of the secondaries; reference secondary: flags of the primaries), and the field names of
     the three kinds of calls"""
     return (f"(run_dataset_m {zlit(n_p)} {zlit(n_s)} {zlist(pr)} {zlist(sr)} "
             f"{masks_lit(masks[0])} {zlit(len(masks[0][0]))} {masks_lit(masks[1])} {zlit(len(masks[1][0]))}, "
-            f'(collapser_names ["rec"%string], collapser_names ["std"%string], collapser_names []))')
+            f"(collapser_names {strs_lit(NAMES_REC)}, collapser_names {strs_lit(NAMES_STD)}, collapser_names []))")
 
 
 # ----------------------------------------------------------------------------- reference statistics
@@ -518,7 +614,8 @@ def judge_dataset(ctx, case, ds, names, obs, val, label):
         if o.get("order"):
             ctx.fail(kind, f"{label}: collapse(): {o['order']}", case=case, signature="collapse-pair-order")
         # the output fields of a call: {**defaults, **custom} of that call only (Coq: collapser_names)
-        for key, want_names, what in (("names_rec", names_rec, "collapser={'rec': f}"), ("names_std", names_std, "collapser={'std': f}"),
+        for key, want_names, what in (("names_rec", names_rec, "collapser={'rec': f, 'first': f1, 'last': f2, 'mid': f3}"),
+                                      ("names_std", names_std, "collapser={'std': f, 'first': f1}"),
                                       ("names_plain", names_plain, "no custom collapser")):
             got_names = o.get(key)
             if got_names is None:
@@ -557,8 +654,45 @@ def judge_dataset(ctx, case, ds, names, obs, val, label):
                 else:
                     continue
                 break
-        # the statistics
+        # custom functions that return a view of the matrix they are handed (slot k of the NaN-padded column = the
+        # (k+1)-th partner in pair order, NaN below the last partner; theorem collapse_custom_function): every variable
+        # holds ITS OWN values, also after the other variables and the later calls of the history have been collapsed
         arrs = obs["arrays"][o["other"]]
+        height = int((cs if ref_secondary else cp)[2][0])
+        plist = [cols_spec[rowpos[r]] for r in range(n_ref)]
+        view_bad = False
+        for f, which in [(f, "") for f in VIEWS] + [("first", " (call with {'std': f, 'first': f1} later in the history)")]:
+            slot = VIEW_SLOT[f](height)
+            idx = np.array([pp[slot] if slot < len(pp) else -1 for pp in plist], dtype=int)
+            for v in VIEW_VARS:
+                got = (o.get("first_again") or {}).get(v) if which else o["stats"][v].get(f)
+                if which and "first_again" not in o:
+                    continue
+                if got is None or got.shape[0] != n_ref:
+                    ctx.fail(kind, f"{label}: collapse(reference={o['ref']}) returned no usable {o['other']}/{v}_{f}{which}",
+                             case=case, signature="collapse-missing")
+                    view_bad = True
+                    break
+                src = np.asarray(arrs[v], dtype=float)
+                want = src[np.maximum(idx, 0)]
+                want[idx < 0] = np.nan
+                gotf = np.asarray(got, dtype=float)
+                if not same(gotf, want):
+                    r = 0
+                    if gotf.shape == want.shape:
+                        r = int(np.argwhere(~((gotf == want) | (np.isnan(gotf) & np.isnan(want))).reshape(n_ref, -1).all(axis=1))[0][0])
+                    ctx.fail(kind, f"{label}: collapse(reference={o['ref']}, collapser={{'{f}': lambda m, a: m[{slot}]}}){which}: "
+                             f"{o['other']}/{v}_{f} of reference point {o['ref_ids'][r]} is {np.asarray(gotf[r]).ravel()[:4].tolist()}; "
+                             f"its partner points in the order of the pair list are {[other_ids[j] for j in plist[r]][:12]}, slot {slot} "
+                             f"of its NaN-padded bin (height {height}) holds {np.asarray(want[r]).ravel()[:4].tolist()} of {o['other']}/{v}"
+,
+                             case=case, impl=np.asarray(gotf[r]).ravel()[:8].tolist(), model=np.asarray(want[r]).ravel()[:8].tolist(),
+                             signature="collapse-custom-view")
+                    view_bad = True
+                    break
+            if view_bad:
+                break
+        # the statistics
         done = False
         for v in ("u", "w", "k"):
             st = o["stats"][v]
@@ -812,13 +946,99 @@ def build_points(c):
     return out
 
 
-def check_collocate_cases(ctx, cases):
+def build_sparse_points(c):
+    """the two datasets of a sparse case (see gen_sparse_case), the expected pairs (track id, station id) by construction
+    and the smallest margin of the brute-force decision (km to the distance threshold)"""
+    import xarray as xr
+    sp, lay = c["sparse"], c["layout"]
+    nrng = np.random.default_rng([c["cseed"], 11])
+    n, at, width = sp["n_track"], sp["at"], sp["grid"]
+    g_track = 0 if sp["role"] == "long_primary" else 1
+    pos = np.array([track_position(k, n) for k in range(n)])
+    tsec = np.arange(n, dtype=np.int64)
+    if sp["time_reversed"]:
+        tsec = tsec[::-1].copy()
+    gv = group_vars(n, g_track, lay, 0, nrng)
+    gv.pop("freq", None)
+    track = xr.Dataset()
+    if width:
+        lines = n // width
+        for v, (dims, arr) in gv.items():
+            ax = dims.index("P")
+            arr = np.asarray(arr)
+            track[v] = (dims[:ax] + ["scnline", "scnpos"] + dims[ax + 1:],
+                        arr.reshape(arr.shape[:ax] + (lines, width) + arr.shape[ax + 1:]))
+        track["time"] = ("scnline", np.datetime64("2001-01-01") + tsec.reshape(lines, width)[:, 0].astype("m8[s]"))
+        track["lat"] = (("scnline", "scnpos"), pos[:, 0].reshape(lines, width))
+        track["lon"] = (("scnline", "scnpos"), pos[:, 1].reshape(lines, width))
+        ttime = np.repeat(tsec.reshape(lines, width)[:, 0], width)
+    else:
+        for v, (dims, arr) in gv.items():
+            track[v] = ([("t" if d == "P" else d) for d in dims], arr)
+        track["time"] = ("t", np.datetime64("2001-01-01") + tsec.astype("m8[s]"))
+        track["lat"] = ("t", pos[:, 0])
+        track["lon"] = ("t", pos[:, 1])
+        ttime = tsec
+    m = len(at)
+    slat = np.array([88.0 if a is None else pos[a, 0] for a in at]) + nrng.uniform(-0.02, 0.02, m)
+    slon = np.array([(37.0 * j) % 360 - 180 if a is None else pos[a, 1] for j, a in enumerate(at)]) + nrng.uniform(-0.02, 0.02, m)
+    ssec = np.arange(m, dtype=np.int64) * 60
+    for j in sp["late"]:
+        ssec[j] += 6 * 3600
+    gs = group_vars(m, 1 - g_track, lay, 0, nrng)
+    gs.pop("freq", None)
+    st = xr.Dataset()
+    for v, (dims, arr) in gs.items():
+        st[v] = ([("t" if d == "P" else d) for d in dims], arr)
+    st["time"] = ("t", np.datetime64("2001-01-01") + ssec.astype("m8[s]"))
+    st["lat"] = ("t", slat)
+    st["lon"] = ("t", slon)
+    # brute force: great-circle distance < 30 km (and |dt| < 2 h)
+    la1, lo1 = np.deg2rad(pos[:, 0])[:, None], np.deg2rad(pos[:, 1])[:, None]
+    la2, lo2 = np.deg2rad(slat)[None, :], np.deg2rad(slon)[None, :]
+    h = np.sin((la2 - la1) / 2) ** 2 + np.cos(la1) * np.cos(la2) * np.sin((lo2 - lo1) / 2) ** 2
+    dist = 2 * 6371.0 * np.arcsin(np.sqrt(h))
+    near = dist < 30.0
+    margin = float(np.abs(dist - 30.0).min())
+    if c["mode"] == "both":
+        dt = np.abs(ttime[:, None] - ssec[None, :])
+        near &= dt < 7200
+        margin = min(margin, float(np.abs(dt - 7200).min()) / 100.0)
+    expected = sorted((int(i), int(j)) for i, j in zip(*np.nonzero(near)))
+    if g_track == 1:
+        expected = sorted((j, i) for i, j in expected)
+    out = [track, st] if g_track == 0 else [st, track]
+    return out[0], out[1], expected, margin
+
+
+def source_points(src, v):
+    """variable v of an input dataset with the point axis first (a gridded swath flattened line by line); None when v does
+    not depend on all point dimensions"""
+    if v not in src:
+        return None
+    sv = src[v]
+    if "t" in sv.dims:
+        return np.moveaxis(np.asarray(sv.values), sv.dims.index("t"), 0)
+    if "scnline" in sv.dims and "scnpos" in sv.dims:
+        sv = sv.transpose("scnline", "scnpos", ...)
+        a = np.asarray(sv.values)
+        return a.reshape((a.shape[0] * a.shape[1],) + a.shape[2:])
+    return None
+
+
+def check_collocate_cases(ctx, cases, tag=""):
     from typhon.collocations import Collocator
     exprs, built, dsx = [], [], []
     skipped = 0
     for c in cases:
         names = c["layout"]["names"]
-        P, S = build_points(c)
+        expected = None
+        if "sparse" in c:
+            P, S, expected, margin = build_sparse_points(c)
+            if margin < 5.0:
+                expected = None                 # (never: the generated geometry decides every pair with a wide margin)
+        else:
+            P, S = build_points(c)
         col = Collocator()
         rec = {}
         orig = col._create_return
@@ -865,16 +1085,18 @@ def check_collocate_cases(ctx, cases):
         for g, src, idl in ((names[0], P, idp), (names[1], S, ids)):
             pa = point_arrays(r, g)
             for v, arr in pa.items():
-                sv = src[v]
-                want = np.moveaxis(np.asarray(sv.values), sv.dims.index("t"), 0)[np.array(idl, dtype=int)]
+                want = source_points(src, v)
+                if want is None:
+                    continue                     # an index variable added by collocate for gridded data
+                want = want[np.array(idl, dtype=int)]
                 if not same(arr, want):
                     bad = f"{g}/{v} does not hold the values of the original points {idl[:10]}"
         built.append({"raw": raw.tolist(), "out": out_pairs.tolist(), "idp": idp, "ids": ids, "values": bad,
-                      "ds": r, "names": names})
+                      "ds": r, "names": names, "expected": expected})
         exprs.append((len(built) - 1,
                       f"(check_compaction {zlist(raw[0])} {zlist(raw[1])} {zlist(idp)} {zlist(ids)} "
                       f"{zlist(out_pairs[0])} {zlist(out_pairs[1])}, run_compact {zlist(raw[0])}, run_compact {zlist(raw[1])})"))
-    vals, log = core.coq_eval(ctx.work / "cases", "col", PREAMBLE, [e for _, e in exprs], shard=40)
+    vals, log = core.coq_eval(ctx.work / "cases", "col" + tag, PREAMBLE, [e for _, e in exprs], shard=40)
     if log:
         ctx.log(log[-2000:])
     nontrivial = set()
@@ -908,7 +1130,7 @@ def check_collocate_cases(ctx, cases):
                         "compact_pairs": [o["out"][0][:12], o["out"][1][:12]]}, limit=9)
     # the results of collocate go through expand / collapse like every other compact dataset
     obs = [observe_dataset(o["ds"], o["names"], [None, 1]) for _, o in follow]
-    vals, log = core.coq_eval(ctx.work / "cases", "colds", PREAMBLE,
+    vals, log = core.coq_eval(ctx.work / "cases", "colds" + tag, PREAMBLE,
                               [ds_expr(len(o["idp"]), len(o["ids"]), o["out"][0], o["out"][1], w_masks(o["ds"], o["names"]))
                                for _, o in follow], shard=40)
     if log:
@@ -916,8 +1138,20 @@ def check_collocate_cases(ctx, cases):
     for (c, o), ob, v in zip(follow, obs, vals):
         ctx.cov["evaluations"] += 1
         judge_dataset(ctx, c, o["ds"], o["names"], ob, v, f"result of Collocator.collocate ({len(o['raw'][0])} pairs)")
-    ctx.cov.setdefault("collocate", {}).update({"cases": len(cases), "without_result_or_search_error": skipped,
-                                                "stored_order_identical_to_model": identical, "checked": len(exprs)})
+        # sparse cases: the expanded rows are the pairs of the brute-force search (the geometry of these cases decides
+        # every pair by a margin of kilometres / minutes), carrying the original data (the id travels with the data)
+        e = ob["expand"]
+        if o.get("expected") is not None and not isinstance(e, str):
+            found = sorted((o["idp"][a], o["ids"][b]) for _, a, b in e["rows"] if a >= 0 and b >= 0)
+            if found != o["expected"]:
+                ctx.fail("failing-input", f"Collocator.collocate({c['n_p']} x {c['n_s']} points, sparse): the expanded rows connect the "
+                         f"original points {found[:14]}; the points within 30 km"
+                         + (" and 2 h" if c["mode"] == "both" else "") + f" of each other are {o['expected'][:14]} "
+                         f"(stored points {o['idp'][:14]} / {o['ids'][:14]}, Collocations/pairs {o['out']})"[:700],
+                         case=c, impl=found[:60], model=o["expected"][:60], signature="collocate-bruteforce")
+    ctx.cov.setdefault("collocate" + ("_sparse" if tag else ""), {}).update(
+        {"cases": len(cases), "without_result_or_search_error": skipped,
+         "stored_order_identical_to_model": identical, "checked": len(exprs)})
     return len(nontrivial)
 
 
@@ -932,6 +1166,11 @@ def run(ctx):
     big_cases = [gen_ds_case(ctx.rng, 100000 + k, big=True) for k in range(n_big)]
     cc_cases = [gen_concat_case(ctx.rng, 200000 + k) for k in range(n_cc)]
     col_cases = [gen_collocate_case(ctx.rng, 300000 + k) for k in range(n_col)]
+    # sparse, unordered results of collocate: directed (the same for every seed) and random ones (generated last: the cases
+    # above are what they were for every seed)
+    n_sp = ctx.n(16, 240)
+    sp_cases = [gen_sparse_case(ctx.rng, 400000 + k, directed=d) for k, d in enumerate(SPARSE_DIRECTED)] \
+        + [gen_sparse_case(ctx.rng, 410000 + k) for k in range(n_sp)]
     a = check_ds_cases(ctx, ds_cases)
     ctx.log(f"datasets done ({n_ds})")
     b = check_ds_cases(ctx, big_cases, shard=1)
@@ -939,12 +1178,15 @@ def run(ctx):
     c = check_concat_cases(ctx, cc_cases)
     ctx.log(f"concat done ({n_cc})")
     d = check_collocate_cases(ctx, col_cases)
+    ctx.log(f"collocate done ({n_col})")
+    d += check_collocate_cases(ctx, sp_cases, tag="sp")
     ctx.cov["distinct_nontrivial"] = a + b + c + d
     ctx.cov["rule"] = ("harness-built compact datasets (1-1300 pairs; one-to-many, many-to-one, identity, full, skewed and random "
                        "multiplicities; shuffled / sorted pair order; arbitrary point numbering; variables with 0-2 extra "
                        "dimensions, transposed layout, NaNs incl. all-NaN points, integer data; default and named reference; a "
-                       "custom collapser, a custom function overriding std, the pair list rearranged), lists of 1-4 datasets for concat (incl. the same dataset listed twice) and results "
-                       "of Collocator.collocate on clustered points; a dataset is non-trivial when some point has >= 2 partners "
+                       "custom collapser, view-returning custom collapsers first / last / middle slot on five variables per group (two scalar, two of one extra-dimension shape), a custom function overriding std, the pair list rearranged), lists of 1-4 datasets for concat (incl. the same dataset listed twice) and results "
+                       "of Collocator.collocate on clustered points and on sparse, unordered track / station geometries (8 directed + random: 300-3000 track points, 3-12 stations, "
+                       "both roles, flat and gridded); a dataset is non-trivial when some point has >= 2 partners "
                        "and the multiplicities are not all equal, a concat case when it has >= 2 entries and a repeated "
                        "primary, a collocate case when a point occurs in >= 2 raw pairs; distinct by input")
     styles = {}
@@ -952,6 +1194,7 @@ def run(ctx):
         styles[x["style"]] = styles.get(x["style"], 0) + 1
     ctx.cov["input_distribution"] = {
         "datasets": n_ds, "datasets_with_1000+_pairs": n_big, "concat_cases": n_cc, "collocate_cases": n_col,
+        "sparse_collocate_cases": len(sp_cases), "sparse_directed": len(SPARSE_DIRECTED),
         "styles": styles, "numba_available": bool(getattr(cm, "_has_numba", False)),
         "row_assignment_variant_exercised": "numba" if getattr(cm, "_has_numba", False) else "pure Python (also for >= 1000 pairs)",
         "pairs_per_dataset": {"min": min(len(x["pairs"][0]) for x in ds_cases + big_cases),
@@ -965,6 +1208,11 @@ def run(ctx):
         "of a column); in the statistics theorems a lane of a value is `option R` (None = NaN, no infinities) and mean / std are "
         "the exact real-valued functions; the floating-point evaluation of mean/std is compared numerically (1e-9 relative to "
         "the data magnitude), <var>_number and the NaN-ness exactly",
+        "collapse_custom_function / collapse_slot_function: hypotheses length refrow = length otherrow, row_ok n refrow, c < n follow from "
+        "compact_ok (certified per case); that the code gives every variable a matrix of its own (no value of another variable shows "
+        "through a view) is tied by the view-returning collapsers on datasets with several variables of one shape",
+        "compaction_check_sound: its hypothesis (the three verdicts of check_compaction are true) is evaluated per collocate case inside Coq; "
+        "a false verdict is reported as a failing input",
         "collapse_call_independent is a statement about the model (a call is a function of dataset, reference and custom "
         "functions); that the code keeps no state between calls is tied by the call histories (custom `rec`, custom `std`, "
         "plain, rearranged pairs, then the other reference) run on every dataset",
